@@ -5,7 +5,7 @@ import logging
 import canopen
 from canopen import objectdictionary as od
 from canopen.sdo import SdoClient
-from canopen.sdo.client import WritableStream
+from canopen.sdo.client import WritableStream, ReadableStream
 from canopen.sdo.exceptions import SdoAbortedError, SdoCommunicationError
 
 from props import c04
@@ -13,7 +13,7 @@ from props import c04
 logging.disable(logging.CRITICAL)
 
 ID = "C01"
-PROOF_MODULES = ["CanopenProofs.C01"]
+PROOF_MODULES = ["CanopenProofs.C01", "CanopenProofs.C01ReadInto"]
 GENERATED = ["Datatypes", "SdoConst"]
 THEOREMS = [
     "Canopen.C01.download_delivers",
@@ -22,6 +22,7 @@ THEOREMS = [
     "Canopen.C01.upload_truncate",
     "Canopen.C01.back_to_back",
     "Canopen.C01.client_decodes_abort",
+    "Canopen.C01.readinto_rechunks",
 ]
 FINGERPRINT = [
     "canopen.sdo.client:SdoClient.request_response",
@@ -186,6 +187,9 @@ def parse_xfer(s):
     p = s.split(":")
     if p[0] == "d":
         return ("d", int(p[1]), int(p[2]), c04.unhx(p[3]), p[4] == "1", p[5] == "1", c04.unnl(p[6]))
+    if len(p) > 4:
+        # an upload through BufferedReader: the buffer sizes its readinto calls handed over when the op was made
+        return ("u", int(p[1]), int(p[2]), p[3], c04.unnl(p[4]))
     return ("u", int(p[1]), int(p[2]), p[3])
 
 
@@ -295,7 +299,7 @@ def do_upload(client, idx, sub, mode):
         return out
 
 
-def run_seq(held, style, mode, xfers, wrap=None, record_offers=None):
+def run_seq(held, style, mode, xfers, wrap=None, record_offers=None, record_reads=None):
     server = RefServer(held, *style)
     odtypes = {(x[1], x[2]): x[3] for x in xfers if x[0] == "u"}
     client = SdoClient(0x602, 0x582, make_od(odtypes))
@@ -316,9 +320,18 @@ def run_seq(held, style, mode, xfers, wrap=None, record_offers=None):
             raise HarnessSpin()
         return n
     WritableStream.write = rec
+    orig_ri = ReadableStream.readinto
+    rseen = []
+
+    def rec_ri(self, b):
+        n = orig_ri(self, b)
+        rseen.append((len(b), n))
+        return n
+    ReadableStream.readinto = rec_ri
     try:
         for x in xfers:
             del seen[:]
+            del rseen[:]
             try:
                 if x[0] == "d":
                     do_download(client, x[1], x[2], x[3], x[4], x[5], x[6], mode)
@@ -330,8 +343,11 @@ def run_seq(held, style, mode, xfers, wrap=None, record_offers=None):
                 results.append(err_name(e))
             if record_offers is not None:
                 record_offers.append(list(seen))
+            if record_reads is not None:
+                record_reads.append(list(rseen))
     finally:
         WritableStream.write = orig
+        ReadableStream.readinto = orig_ri
     return results, bus, server
 
 
@@ -346,7 +362,15 @@ def run_impl(op):
     mode = a[6]
     xfers = [parse_xfer(s) for s in a[7].split(";")]
     rec = [] if mode not in ("raw",) else None
-    results, bus, server = run_seq(held, style, mode, xfers, record_offers=rec)
+    reads = []
+    results, bus, server = run_seq(held, style, mode, xfers, record_offers=rec, record_reads=reads)
+    for i, (x, rd) in enumerate(zip(xfers, reads)):
+        if x[0] == "u" and len(x) > 4:
+            # the op carries the buffer sizes; report what each readinto handed over
+            if [a_ for a_, _ in rd] != list(x[4]):
+                return f"SIZES-CHANGED {[a_ for a_, _ in rd]}"
+            if results[i].startswith("ok"):
+                results[i] += "@" + ".".join(str(n) for _, n in rd)
     if rec is not None:
         # buffered modes: the op carries the raw write sizes observed when it was generated
         for x, seen in zip(xfers, rec):
@@ -379,7 +403,7 @@ NUMERIC_BYTES = {**{t: w // 8 for t, (w, _) in c04.SPEC.items()}, 0x01: 1, 0x08:
 
 def oracle(op, out):
     a = op.split(" ")
-    if out.startswith("OFFERS-CHANGED") or out.startswith("HARNESS"):
+    if out.startswith("OFFERS-CHANGED") or out.startswith("SIZES-CHANGED") or out.startswith("HARNESS"):
         return None
     held = parse_held(a[1])
     size_ind, expedited, exp_size = a[2] == "1", a[3] == "1", a[4] == "1"
@@ -403,6 +427,13 @@ def oracle(op, out):
             held[(x[1], x[2])] = x[3]
             exp_commits.append(f"{x[1]}.{x[2]}={c04.hx(x[3])}")
         else:
+            if "@" in r:
+                # readinto never hands over more than fits, and loses, repeats or reorders nothing: the pieces
+                # are the raw segment stream cut differently (whatever BufferedReader made of them is r itself)
+                r, lens = r.split("@")
+                lens = [int(v) for v in lens.split(".")] if lens else []
+                if any(n > cap for n, cap in zip(lens, x[4])):
+                    return f"readinto handed over {lens} into buffers of {list(x[4])}"
             data = held.get((x[1], x[2]))
             if data is None:
                 exp = f"err aborted {0x06020000}"
@@ -475,11 +506,16 @@ def finish_op(held, style, mode, xfers_raw):
     """for buffered / api modes replace the offers of every download by the raw write sizes observed"""
     xfers = [parse_xfer(x) for x in xfers_raw]
     if mode != "raw":
-        rec = []
-        run_seq(parse_held(held), style, mode, xfers, record_offers=rec)
+        rec, reads = [], []
+        run_seq(parse_held(held), style, mode, xfers, record_offers=rec, record_reads=reads)
         out = []
-        for x, seen in zip(xfers, rec):
-            out.append(dl_token(x[1], x[2], x[3], x[4], x[5], seen) if x[0] == "d" else f"u:{x[1]}:{x[2]}:{x[3]}")
+        for x, seen, rd in zip(xfers, rec, reads):
+            if x[0] == "d":
+                out.append(dl_token(x[1], x[2], x[3], x[4], x[5], seen))
+            elif mode[0] == "b" and rd:
+                out.append(f"u:{x[1]}:{x[2]}:{x[3]}:{c04.nl([a_ for a_, _ in rd])}")
+            else:
+                out.append(f"u:{x[1]}:{x[2]}:{x[3]}")
         xfers_raw = out
     si, ex, es, cuts = style
     return f"seq {held} {int(si)} {int(ex)} {int(es)} {c04.nl(cuts)} {mode} {';'.join(xfers_raw)}"
